@@ -131,6 +131,7 @@ type RegexSpec struct {
 	Global  string // e.g. valid.PhoneRe
 	SpecRe  string // Go regexp syntax for the documented language
 	Search  bool   // unanchored search semantics: language = .*spec.*
+	Subset  bool   // full-match language of the code's pattern is included in the full-match language of the spec pattern
 	File    string
 	Line    int
 }
@@ -424,10 +425,17 @@ func (c *Contracts) LoadContractFile(path, pkgPrefix string, trusted bool) error
 			// regex [C05 language.PhoneRe] valid.PhoneRe == `^1[3-9][0-9]{9}$`   (or  ~= for search semantics)
 			label, props, _, src := splitLabel(rest)
 			search := false
+			subset := false
 			i := strings.Index(src, "==")
 			if i < 0 {
 				i = strings.Index(src, "~=")
 				search = true
+			}
+			if i < 0 {
+				// G << `pattern`: every string the regexp matches ENTIRELY (an element of FindAll...) is entirely matched by pattern
+				i = strings.Index(src, "<<")
+				search = false
+				subset = i >= 0
 			}
 			if i < 0 {
 				return fmt.Errorf("%s:%d: bad regex clause", path, l.no)
@@ -438,7 +446,7 @@ func (c *Contracts) LoadContractFile(path, pkgPrefix string, trusted bool) error
 			if !strings.Contains(g, ".") {
 				g = pkgPrefix + g
 			}
-			c.Regexes = append(c.Regexes, &RegexSpec{Label: label, Props: props, Global: g, SpecRe: re, Search: search, File: path, Line: l.no})
+			c.Regexes = append(c.Regexes, &RegexSpec{Label: label, Props: props, Global: g, SpecRe: re, Search: search, Subset: subset, File: path, Line: l.no})
 			cur = nil
 		case kw == "smt":
 			c.Raw = append(c.Raw, rest)
@@ -611,7 +619,7 @@ func LoadAllContracts(repo, specDir string) (*Contracts, error) {
 			return nil, err
 		}
 	}
-	for _, pk := range [][2]string{{"valid", "valid."}, {"valid/internal", "internal."}, {"file", "file."}, {".", "main."}} {
+	for _, pk := range [][2]string{{"valid", "valid."}, {"valid/internal", "internal."}, {"file", "file."}, {".", "main."}, {"log", "log."}} {
 		f := filepath.Join(repo, pk[0], "contracts_verif.go")
 		if _, err := os.Stat(f); err == nil {
 			if err := c.LoadContractFile(f, pk[1], false); err != nil {
